@@ -15,8 +15,8 @@ RULE = ("a case is a HISTORY: the first config is installed with init_config in 
         "log_enabled!(target:..) and the appenders reached by log!(target:..) are compared with the model. "
         "Histories: every sequence of length <= 2 over a pool of 9 hand-made configs (verbose descendant "
         "under quiet root with implied intermediate, the reverse, Off everywhere, max only in a depth-3 "
-        "leaf, max in a non-additive sibling without appenders, ...), length-3 sequences over the pool "
-        "(sampled in quick, all in thorough), then random histories of length <= 8 over random configs "
+        "leaf, max in a non-additive sibling without appenders, ...), every length-3 sequence over 6 of them "
+        "(over all 9 in thorough), then random histories of length <= 8 over random configs "
         "(<= 7 loggers, depth <= 4, levels biased so that the maximum is often attained only by one deep "
         "descendant; consecutive configs often differ in one level only, going up or down). "
         "non-trivial = history with >= 2 steps whose maxima differ, or a config whose most verbose level "
@@ -129,11 +129,9 @@ def cases(rng, tier):
     for a, b in itertools.product(P, repeat=2):
         out.append(mk([a, b]))
     triples = list(itertools.product(P[:6] if tier == "quick" else P, repeat=3))
-    if tier == "quick":
-        triples = rng.shuffle(triples)[:50]
     for t in triples:
         out.append(mk(list(t)))
-    n_rand = 110 if tier == "quick" else 2500
+    n_rand = 160 if tier == "quick" else 2500
     for _ in range(n_rand):
         n = rng.range(1, 8)
         cfgs = [rand_cfg(rng)]
